@@ -797,6 +797,17 @@ func (c *EvalCtx) call(v *ECall) TV {
 		}
 		return tvTerm(c.prog.zeroOfSort(ArraySort(ks, SBool)))
 	}
+	// macro
+	if m, ok := c.prog.Spec.Macros[v.Fun]; ok {
+		if len(v.Args) != len(m.Params) {
+			c.fail("macro %s expects %d arguments", v.Fun, len(m.Params))
+		}
+		extra := map[string]TV{}
+		for i, a := range v.Args {
+			extra[m.Params[i]] = c.eval(a)
+		}
+		return c.withVars(extra).eval(m.Body)
+	}
 	// spec function
 	if f, ok := c.prog.U.Funs[v.Fun]; ok {
 		a := args()
